@@ -4,7 +4,7 @@
    (L0, L1, L2) = (361, 31, 23) is unprotected: served from the loaded root key, for every network oracle. *)
 From V Require Import Prelude.Base Prelude.PyAst Prelude.PyWorld Flow.World_cache Proofs.Flow_cache_public.
 From V Require Import Model.Types Model.Crypto Model.Chain Model.KeyId Model.Gkdi Model.Kek Model.SecDesc Model.Blob Model.Client Model.Cache.
-From V Require Import Proofs.C01Lib Proofs.C10 Proofs.C10Refine.
+From V Require Import Spec.GkdiSpec Proofs.C01Lib Proofs.C10 Proofs.C10Refine.
 Local Open Scope Z_scope.
 
 Definition rx_rk : root_key :=
@@ -77,6 +77,8 @@ Definition rx_env : envelope :=
   | Ok e => e
   | Raise _ => rx_dc [] None 0 0 0
   end.
+Lemma rx_env_hash : envelope_hash rx_env = Ok SHA512.
+Proof. vm_compute. reflexivity. Qed.
 Lemma rx_transparent :
   fst (unprotect_online symg dns_of (getkey_of rx_dc) (crun symg rx_dc rx_evs) rx_B None VN VN VN) = decrypt_blob symg rx_b rx_env /\
   gke_l0 rx_env = 361 /\
@@ -86,5 +88,91 @@ Proof.
   destruct rx_asks as (HA & E1 & E2 & E3 & E4). destruct rx_good as (G1 & G2).
   pose proof (concrete_transparent symg SHA512 rx_dc rx_truth rx_dc_conforming (adc_explicit rx_dc rx_dc_explicit)
                 rx_evs rx_B rx_b rx_sd None VN VN VN rx_env G1 G2 HA) as T.
-  cbv zeta in T. rewrite E1, E2, E3, E4 in T. apply T; try lia; vm_compute; reflexivity.
+  cbv zeta in T. rewrite E1, E2, E3, E4 in T.
+  destruct T as (T1 & T2 & T3 & _); try lia; try exact rx_env_hash; try (vm_compute; reflexivity). auto.
 Qed.
+
+(* why C10_concrete_transparent asks envelope_hash rk = Ok h: instantiate the abstract kdf with SHA256 on this instance, whose
+   envelope names SHA512.  Every OTHER hypothesis still holds (the DC is the same public-only one, conformance is vacuous), but the
+   chain key of the SHA256 instantiation is not the L2 key the call derives *)
+Lemma rx_dc_conforming_256 : dc_conforming_ok (akdf symg SHA256) (al1seed symg) (adc_of rx_dc) (atruth rx_truth).
+Proof.
+  intros sd rko l0 l1 l2 e Hp. exfalso. subst e. unfold adc_of in Hp.
+  destruct (coded sd && match rko with Some rk => coded rk | None => true end); cbn in Hp; discriminate.
+Qed.
+Lemma rx_wrong_hash :
+  envelope_hash rx_env <> Ok SHA256 /\
+  compute_l2_key symg SHA512 31 23 rx_env
+  <> key_at (akdf symg SHA256) (al1seed symg) (atruth rx_truth) (code rx_rkid) (code rx_sd) 361 31 23.
+Proof. split; vm_compute; discriminate. Qed.
+
+(* ---- a DC that hands out PRIVATE material: the (31, 31) seed envelope of the true root key for the requested (SD, root key id,
+   L0) (L0 361 for "the current key"); public when the KDF context cannot be built (an L0 outside the signed 32-bit range).  Its
+   conformance is NOT vacuous.  No root key is loaded: the first unprotect asks the DC, the cache keeps the seed envelope, and
+   C10_concrete_no_repeat_rpc fires on RPC-obtained material. ---- *)
+Definition sx_dc (sd : bytes) (rko : option bytes) (l0 l1 l2 : Z) : envelope :=
+  let rkid := match rko with Some r => r | None => rx_rkid end in
+  let p0 := if l0 =? -1 then 361 else l0 in
+  match compute_l1_key symg SHA512 sd rkid p0 (rk_key rx_rk) with
+  | Ok k1 =>
+    match kdfK symg SHA512 rkid p0 (Ok k1) 31 31 with
+    | Ok k2 =>
+      {| gke_version := 1; gke_flags := 2; gke_l0 := p0; gke_l1 := 31; gke_l2 := 31; gke_rkid := rkid;
+         gke_kdf_alg := STR_KDF_ALG; gke_kdf_params := rk_kdf_params rx_rk; gke_secret_alg := STR_DH; gke_secret_params := [];
+         gke_priv_len := 512; gke_pub_len := 2048; gke_domain := []; gke_forest := []; gke_l1_key := k1; gke_l2_key := k2 |}
+    | Raise _ => rx_dc sd rko l0 l1 l2
+    end
+  | Raise _ => rx_dc sd rko l0 l1 l2
+  end.
+Definition sx_evs : list cevent := [CEUnprotect rx_B None VN VN VN].
+
+Lemma rx_rk_hash : KDFParameters_unpack (rk_kdf_params rx_rk) = Ok (ascii_str "SHA512") /\ hash_algorithm (ascii_str "SHA512") = Ok SHA512.
+Proof. split; vm_compute; reflexivity. Qed.
+
+Lemma sx_dc_conforming : dc_conforming_ok (akdf symg SHA512) (al1seed symg) (adc_of sx_dc) (atruth rx_truth).
+Proof.
+  intros sd rko l0 l1 l2 e Hp. subst e. unfold adc_of in *.
+  destruct (coded sd && match rko with Some rk => coded rk | None => true end) eqn:EC; [|cbn in Hp; discriminate].
+  assert (Esd : code (dec sd) = sd) by (unfold coded in EC; lia).
+  assert (Erk : code (match option_map dec rko with Some r => r | None => rx_rkid end)
+                = match rko with Some rk => rk | None => code rx_rkid end)
+    by (destruct rko as [rk|]; cbn [option_map]; [unfold coded in EC; lia|reflexivity]).
+  unfold sx_dc in *.
+  set (rkid := match option_map dec rko with Some r => r | None => rx_rkid end) in *.
+  set (p0 := if l0 =? -1 then 361 else l0) in *.
+  destruct (compute_l1_key symg SHA512 (dec sd) rkid p0 (rk_key rx_rk)) as [k1|] eqn:E1; [|cbn in Hp; discriminate].
+  destruct (kdfK symg SHA512 rkid p0 (Ok k1) 31 31) as [k2|] eqn:E2; [|cbn in Hp; discriminate].
+  cbn [abs_env c_rk c_l0 c_l1 c_l2 c_k1 c_k2 gke_rkid gke_l0 gke_l1 gke_l2 gke_l1_key gke_l2_key cenv_env e_l1 e_l2 e_l1key e_l2key].
+  assert (TOP : top (al1seed symg) (atruth rx_truth) (code rkid) sd p0 = Ok k1).
+  { unfold top, al1seed, atruth, rx_truth. destruct rx_rk_hash as [-> Hh]. cbn [bind]. rewrite Hh. cbn [bind]. rewrite dec_code. exact E1. }
+  split; [easy|]. split; [easy|]. split.
+  - unfold GkdiSpec.conforming. cbn [cenv_env abs_env c_l1 c_l2 c_k1 c_k2 gke_l1 gke_l2 gke_l1_key gke_l2_key e_l1 e_l2 e_l1key e_l2key]. split; [easy|]. split; [easy|]. split; [|intros X; exfalso; apply X; reflexivity].
+    intros _. rewrite TOP. reflexivity.
+  - rewrite TOP. change (GkdiSpec.K2 (akdf symg SHA512 (code rkid) p0) (Ok k1) 31 31) with (akdf symg SHA512 (code rkid) p0 (Ok k1) 31 31).
+    unfold akdf. rewrite dec_code. symmetry. exact E2.
+Qed.
+
+Lemma sx_ok : Forall cev_ok sx_evs /\ Forall (cev_true rx_truth) sx_evs.
+Proof. split; repeat constructor. exists rx_b, rx_sd. exact (proj1 rx_asks). Qed.
+
+(* the cache after the first call holds the DC's seed envelope for (rx_rkid, rx_sd, 361) *)
+Definition sx_entry : envelope :=
+  match cc_find_seed (cc_seeds (crun symg sx_dc sx_evs)) (rx_rkid, rx_sd, 361) with Some e => e | None => rx_dc [] None 0 0 0 end.
+Lemma sx_served : c_served (crun symg sx_dc sx_evs) rx_rkid rx_sd 361 31 31 /\ cc_roots (crun symg sx_dc sx_evs) = [].
+Proof.
+  split; [|vm_compute; reflexivity]. left. exists sx_entry. split; [vm_compute; reflexivity|]. right. split; vm_compute; [reflexivity|discriminate].
+Qed.
+(* ... so the next unprotect of the blob (position (31, 23) <= (31, 31)) is the offline function, for every network oracle, and returns the plaintext *)
+Lemma sx_no_rpc : forall dns getkey server u p a,
+  unprotect_online symg dns getkey (crun symg sx_dc sx_evs) rx_B server u p a = unprotect_offline symg (crun symg sx_dc sx_evs) rx_B.
+Proof.
+  destruct rx_asks as (HA & E1 & E2 & E3 & E4). destruct sx_ok as (G1 & G2).
+  destruct (concrete_no_repeat_rpc symg SHA512 sx_dc rx_truth sx_dc_conforming sx_evs [] rx_rkid rx_sd 361 31 31 31 23) as (_ & H).
+  - rewrite app_nil_r. exact G1.
+  - rewrite app_nil_r. exact G2.
+  - exact (proj1 sx_served).
+  - right. lia.
+  - rewrite app_nil_r in H. intros dns getkey server u p a. exact (H rx_B rx_b HA E1 E2 E3 E4 dns getkey server u p a).
+Qed.
+Lemma sx_plaintext : fst (unprotect_offline symg (crun symg sx_dc sx_evs) rx_B) = Ok rx_data.
+Proof. vm_compute. reflexivity. Qed.
